@@ -31,10 +31,18 @@ Dedup(q) == SelectSeq([i \in DOMAIN q |-> IF \E j \in 1..(i - 1) : q[j] = q[i] T
                       LAMBDA x : x # <<>>)
 Unwrap(q) == [i \in DOMAIN q |-> q[i][1]]
 
+(* extended sets: now and then the pool holds the same regular expression under both
+   sub-types (rt:X and soo:X), so that Remove meets entries that differ in the sub-type only *)
+OtherSt(st) == IF st = "rt" THEN "soo" ELSE "rt"
+Twin(p) == IF Gen = "shape" THEN [p EXCEPT !.st = OtherSt(p.st)]
+           ELSE [p EXCEPT !.st = OtherSt(p.st), !.stcfg = OtherSt(p.st)]
+
 MakePats(sd) ==
-  Unwrap(Dedup([i \in 1..NPats |->
-     LET r == SubSeq(sd, 16 * (i - 1) + 1, 16 * i)
-     IN IF Gen = "shape" THEN ShapePattern(Kind, r) ELSE NearPattern(Kind, r)]))
+  LET raw == [i \in 1..NPats |->
+                LET r == SubSeq(sd, 16 * (i - 1) + 1, 16 * i)
+                IN IF Gen = "shape" THEN ShapePattern(Kind, r) ELSE NearPattern(Kind, r)]
+  IN Unwrap(Dedup([i \in 1..NPats |->
+       IF Kind = "ext" /\ i > 1 /\ sd[16 * i] % 5 = 0 THEN Twin(raw[i - 1]) ELSE raw[i]]))
 
 MakeVals(ps, sd) ==
   Unwrap(Dedup([i \in 1..NVals |->
@@ -65,7 +73,7 @@ GenEdit ==
   /\ phase = "edit"
   /\ Len(hist) <= MaxSteps
   /\ \E r \in {R8(0)} :
-       LET op == PickSeq(<<"Append", "Append", "Append", "Remove", "Remove", "Remove", "Replace">>, r[1])
+       LET op == PickSeq(<<"Append", "Append", "Append", "Remove", "Remove", "Replace">>, r[1])
            k  == (r[2] % 2) + 1
            (* Remove: 3 times out of 4 aim at an entry that is in the list *)
            pick(x, y) == IF op = "Remove" /\ plist # <<>> /\ y % 4 # 0
